@@ -4,13 +4,15 @@ from compiler_checks import *
 
 PID = "C06"
 THEOREMS = ["PauLie.C06.compileTargetFront_spec", "PauLie.C06.compileTargetFront_admissible",
-            "PauLie.C06.C06_obstruction_odd", "PauLie.C06.C06_obstruction_odd_valid", "PauLie.C06.C06_witnesses_unreachable"]
-IMPORTS = ["PauLieVerif.Properties.C06"]
+            "PauLie.C06.C06_obstruction_odd", "PauLie.C06.C06_obstruction_odd_valid", "PauLie.C06.C06_witnesses_unreachable"] + SEARCH_THEOREMS_C06
+IMPORTS = ["PauLieVerif.Properties.C06", "PauLieVerif.Properties.C06Search"]
 
 # the refutation witnesses quoted in Properties/C06.lean, replayed on every run (corpus/C06.jsonl holds them too)
 WITNESSES = ["witness 4 3 IXXX", "witness 4 3 IXXI", "witness 5 2 IIXXX"]
 
 def batch_oracle_compile(lines, outs):
+    IMPL.update(zip(lines, outs))
+    modelx([l for l, o in zip(lines, outs) if o.startswith("!")])
     res = []
     for l, o in zip(lines, outs):
         N, k, t = parse_compile_line(l)
@@ -23,10 +25,12 @@ def batch_oracle_compile(lines, outs):
     return res
 
 def known_match(stream, line, why):
+    if line.startswith("ccompile "):
+        return ccompile_known(PID, line, why)
     if not line.startswith("compile ") or not why.startswith("kind="):
         return None
     N, k, t = parse_compile_line(line)
-    return signature(PID, N, k, t, why[5:].split(";")[0])
+    return signature(PID, N, k, t, why[5:].split(";")[0], line)
 
 def oracle_front(line, out):
     _, t, k = line.split(" ")
@@ -57,7 +61,7 @@ def build_streams(rng, tier):
     def tag(l, o):
         N, k, t = parse_compile_line(l)
         return branch(k, t) + ":" + ("returned" if o.startswith("seq=") else o)
-    kw = dict(batch_oracle=batch_oracle_compile, shrink=shrink_compile, tag=tag, model=False,
+    kw = dict(batch_oracle=batch_oracle_compile, shrink=shrink_compile, tag=tag, model=True,
               nontrivial=lambda l, o: True)
     return [
         Stream("corpus-front", [l for l in corpus if l.startswith("ctfront ")], h, oracle_front),
@@ -65,26 +69,49 @@ def build_streams(rng, tier):
         Stream("recorded-raise-replay", WITNESSES, h, None, tag=lambda l, o: o),
         Stream("compile_target-guards-and-slicing", front_lines(rng, tier), h, oracle_front,
                tag=lambda l, o: "ValueError" if o.startswith("!") else "sliced"),
+        Stream("compile_target-guards-end-to-end", guard_lines(rng), h, None, tag=lambda l, o: o),
+        Stream("search-helpers", helper_lines(rng, tier), h, None, tag=lambda l, o: l.split(" ")[0] + ":" + ("raise" if o.startswith("!") else ("empty" if o in ("-", "None") else "result")),
+               nontrivial=lambda l, o: not o.startswith("!")),
         Stream("compile-exhaustive", ex, h, **kw),
         Stream("compile-sampled", smp, h, **kw),
+        Stream("class-API-object-reuse", ccompile_lines(rng, tier), h, batch_oracle=ccompile_oracle(PID), shrink=shrink_ccompile, model=True,
+               tag=lambda l, o: "reuse:" + ("returned" if all(x.startswith("seq=") for x in o.split("|")) else "some-raise"),
+               nontrivial=lambda l, o: True),
+        Stream("listed-failures-reproduced-by-model", listed_lines(tier), listed_kind, None, tag=lambda l, o: "listed:" + o),
     ]
 
-RULE = ("compile_target run on ALL 4^N-1 targets for N<=4 (thorough N<=5), every 2<=k<N, seeded samples at N=5 (quick) and 6<=N<=8; "
+RULE = ("CLASS API with object reuse (stream class-API-object-reuse): one OptimalPauliCompiler object compiles 2-4 targets in a row (repeats, consecutive "
+        "targets sharing the right block, N<=5, thorough also 6); every reply is judged like a compile_target reply AND must equal what a fresh compiler "
+        "(and the model, a pure function) answers. EXACT correspondence of compile_target with the Lean model of the whole search (Model/CompilerSearch.lean) on every compile line below: same "
+        "sequence, or same exception type raised by the same function; the helpers left_map_over_a / subsystem_compiler / factor_w_orders / "
+        "_candidate_decompositions / _bfs_case3 compared one by one on random inputs (k<=4, N<=7); the committed list of raising targets must be what the "
+        "model produces; a raise at N>=6 is a known finding only if the model raises the same exception in the same function. "
+        "compile_target run on ALL 4^N-1 targets for N<=4 (thorough N<=5), every 2<=k<N, seeded samples at N=5 (quick) and 6<=N<=8; "
         "a raise is a failure (exception type + raising function of pauli_compiler.py recorded). Guards/slicing of compile_target and the "
         "constructor compared with the model for lengths 0..6 x k in -2..n+2 and random lengths to 24. Every target of the exhaustive domain counts as non-trivial")
 
 def main(tier):
     return standard_main(PID, tier, "other", THEOREMS, IMPORTS, build_streams, known_match=known_match, rule=RULE,
-        assumptions=["totality is a statement about the search procedures, which are NOT modelled: Lean proves only the guard/slicing front of compile_target "
-                     "and the obstruction for odd k (no sequence inside the universal set can reach a Q=0 target); that the implementation raises is observed by "
-                     "running it (exhaustive N<=4/5) — the raise itself is a replayed finding, not a Lean fact",
+        assumptions=["totality is a statement about the search procedures; they are modelled exactly (tie: correspondence on all targets N<=4/5, samples to N=8, "
+                     "helpers one by one); C06_refuted / _left_only / _even_k are kernel-evaluated runs of the model; left_map_over_a is proved sound (a returned path is a "
+                     "walk from start to goal over the given generators) and complete (it raises 'Left map BFS failed.' only if the goal is unreachable) for all inputs; for "
+                     "every odd k and every N the model returns nothing for V x I..I with an even number of non-identity letters in V (C06_fails_odd_wI, via the invariant Q "
+                     "of C07); NOT proved: that the model's fuel never runs out (separate error value, never observed), hence not 'it raises exactly RuntimeError' for all N; "
+                     "the even-k raises (start = fallback X_1 of a vanishing commutator) are reproduced by the model, not explained by a theorem",
                      "the property is FALSE on the current tree; failing targets are recorded findings (complete list for N<=5)"])
 
 def replay(path):
     r = json.load(open(path)); line = r.get("line")
     out = impl_compiler.handle(line)
     print("line:", line); print("implementation:", out)
-    if line.startswith("compile "):
+    div = 0
+    if line.startswith("ccompile "):
+        m = run_model([line])[0]
+        print("model (= fresh compiler per target):", m)
+        div = 1 if m != out else 0
+        why = ccompile_oracle(PID)([line], [out])[0]
+    elif line.startswith("compile "):
+        div = replay_compile(line, out)
         why = batch_oracle_compile([line], [out])[0]
     else:
         print("model:", run_model([line])[0])
@@ -92,4 +119,5 @@ def replay(path):
     print("oracle:", why or "holds")
     if why and known_match("replay", line, why) and known_lookup(PID, known_match("replay", line, why)):
         print("known finding:", known_match("replay", line, why))
-    return 1 if why else 0
+        return div
+    return 1 if (why or div) else 0
